@@ -30,7 +30,7 @@ Theorem C12_held_layer_serves :
   forall (os : list Resolver.op) (u h : nat),
     let s := Resolver.exec Resolver.init os in
     nth_error (uh s) u = Some (h, false) ->
-    Resolver.step s (Use u) = (s, EUse false false) /\ Resolver.step s (Refresh u true) = (s, ENone).
+    Resolver.step s (Use u) = (s, EUse false false) /\ snd (Resolver.step s (Refresh u RfOk)) = ENone.
 Proof. intros os u h s H. exact (held_use s u h (Proofs.Resolver.reach_inv os) H). Qed.
 Print Assumptions C12_held_layer_serves.
 
@@ -180,6 +180,36 @@ Example C12_nonvacuous_single_instance :
      (ERet 0 true, EPause 1, (1, 1, 1)); (ERet 0 false, ENone, (1, 1, 1))].
 Proof. vm_compute. split; [eexists; repeat split|]. split; reflexivity. Qed.
 
+(* connectivity refreshes.  The blob's fetcher is replaced only by an ACCEPTED Refresh: a Refresh that is refused —
+   the registry cannot be resolved, or it offers a blob of another size — changes nothing at all (any state) ... *)
+Theorem C12_refused_refresh_changes_nothing :
+  forall (s : Resolver.st) (u : nat) (r : rfo), r = RfErr \/ r = RfSize -> fst (Resolver.step s (Refresh u r)) = s.
+Proof. exact refused_refresh_nop. Qed.
+Print Assumptions C12_refused_refresh_changes_nothing.
+
+(* ... hence a held layer keeps serving also the reads that have to go to the registry (parts of the blob not yet in
+   the blob cache), after any history of resolves, releases, expiry and Refresh calls accepted or refused — provided no
+   registry was accepted that serves other bytes under the blob's own size (blob.Refresh compares sizes only; such a
+   registry is outside "connectivity"). *)
+Theorem C12_held_layer_serves_uncached_reads :
+  forall (os : list Resolver.op) (u h : nat),
+    Forall (fun o => ~ accepts_other_content o) os ->
+    let s := Resolver.exec Resolver.init os in
+    nth_error (uh s) u = Some (h, false) -> Resolver.step s (Probe u) = (s, EProbe true).
+Proof. exact held_probe. Qed.
+Print Assumptions C12_held_layer_serves_uncached_reads.
+
+(* Non-vacuity: a held layer; refused refreshes (error, other size) leave uncached reads working; an accepted
+   other-content registry breaks them (and only them: cached reads still work); an accepted good Refresh repairs them. *)
+Example C12_nonvacuous_refresh :
+  crun Resolver.init [RStart 0; RStep 0 true; RStep 0 true; Refresh 0 RfSize; Probe 0; Refresh 0 RfErr; Probe 0;
+                      Refresh 0 RfContent; Probe 0; Use 0; Refresh 0 RfOk; Probe 0] =
+  [(EPause 3, ENone, (0, 1, 0)); (EPause 4, ENone, (1, 1, 0)); (ERet 0 true, ENone, (1, 1, 1));
+   (EErr, ENone, (1, 1, 1)); (EProbe true, ENone, (1, 1, 1)); (EErr, ENone, (1, 1, 1)); (EProbe true, ENone, (1, 1, 1));
+   (ENone, ENone, (1, 1, 1)); (EProbe false, ENone, (1, 1, 1)); (EUse false false, ENone, (1, 1, 1));
+   (ENone, ENone, (1, 1, 1)); (EProbe true, ENone, (1, 1, 1))].
+Proof. vm_compute. reflexivity. Qed.
+
 (* ---------------------------------------------------------------------------------------------------------
    The same at the level of fs/fs.go (Model/FsMount.v): Mount = Resolve of the target + pre-resolve of the
    neighbouring layers (released with Done at once), registration under the mountpoint; Check = layer Check, then
@@ -204,8 +234,8 @@ Theorem C12_mounted_layer_usable :
     F.lookup mp (F.mnts s) = Some u ->
     (exists h, nth_error (uh (F.rs s)) u = Some (h, false) /\ layer_flags (F.rs s) h = (false, false)) /\
     F.fstep s (F.FUse mp) = (s, EUse false false) /\
-    (forall ok2, F.fstep s (F.FCheck mp true ok2) = (s, ENone)) /\
-    F.fstep s (F.FCheck mp false true) = (s, ENone).
+    (forall r, F.fstep s (F.FCheck mp true r) = (s, ENone)) /\
+    snd (F.fstep s (F.FCheck mp false RfOk)) = ENone.
 Proof. exact Proofs.FsMount.mounted_usable. Qed.
 Print Assumptions C12_mounted_layer_usable.
 
@@ -222,7 +252,15 @@ Print Assumptions C12_fs_coarse_histories_covered.
 Example C12_nonvacuous_mounted :
   F.cfrun F.finit [F.CMount 0 0 [1; 2] [[]; []; []]; F.CMount 1 0 [1; 2] [[]; []; []];
                    F.COp (F.FExpireL 0); F.COp (F.FExpireB 0); F.COp (F.FUnmount 0); F.COp (F.FUse 1);
-                   F.COp (F.FCheck 1 false false); F.COp (F.FUnmount 1)] =
+                   F.COp (F.FCheck 1 false RfErr); F.COp (F.FUnmount 1)] =
   [(ENone, (3, 3, 3, 1)); (ENone, (3, 3, 3, 2)); (ENone, (3, 3, 3, 2)); (ENone, (3, 3, 3, 2)); (ENone, (3, 3, 3, 1));
    (EUse false false, (3, 3, 3, 1)); (EErr, (3, 3, 3, 1)); (ENone, (2, 2, 2, 0))].
 Proof. vm_compute. reflexivity. Qed.
+
+(* the same through filesystem.Check: a refused Refresh leaves the filesystem state untouched *)
+Theorem C12_check_refused_refresh_changes_nothing :
+  forall (s : F.fst_) (mp : nat) (ok1 : bool) (r : rfo),
+    r = RfErr \/ r = RfSize -> fst (F.fstep s (F.FCheck mp ok1 r)) = s.
+Proof. exact Proofs.FsMount.check_refused_nop. Qed.
+Print Assumptions C12_check_refused_refresh_changes_nothing.
+
